@@ -9,7 +9,6 @@ CONSTANTS
   UHi <- TUHi
   Handles <- THandles
 SPECIFICATION TSpecD
-INVARIANT TInv_Init
 INVARIANT Inv_Typed
 CONSTRAINT Reach
 POSTCONDITION Post
